@@ -143,6 +143,10 @@ def gen_cases(rng, tier):
     for i, hist in enumerate((["100:t", "200:a"], ["180:a", "100:t", "200:a"], ["180:a", "100:a", "183:a", "200:a"], ["100:t", "180:a", "100:t", "486:-"],
                               ["183:a", "180:b", "100:b", "200:b", "200:a"], ["100:a"], ["100:t", "100:-", "404:a"])):
         cases.append(_case("tt%d" % i, hist, rng))
+    # "a 3xx-6xx is reported as failure": every class of final failure, also without a To-tag (a redirect server or a proxy that adds none)
+    for i, hist in enumerate((["302:-"], ["180:a", "302:-"], ["100:-", "300:-"], ["180:a", "183:b", "399:-"], ["180:a", "380:-"], ["183:a", "305:-"], ["180:a", "301:a"],
+                              ["180:a", "400:-"], ["180:a", "503:-"], ["180:a", "183:b", "600:-"], ["180:a", "699:-"], ["100:-", "302:b"])):
+        cases.append(_case("fc%d" % i, hist, rng))
     # a dialog-creating response the caller cannot use (To-tag but no Contact: reported as an error, nothing is created) must leave no
     # trace: what comes later for that To-tag is classified as if it were the first
     for i, hist in enumerate((["183:a!", "200:a"], ["183:a!", "180:a"], ["183:a!", "180:a", "200:a"], ["180:b", "183:a!", "200:a"], ["100:-", "183:a!", "183:a!", "180:a", "486:-"],
